@@ -342,6 +342,36 @@ impl Prop for C19 {
             },
         ));
         f.push(Family::new(
+            "word-free-units",
+            Mode::Full,
+            "unit arithmetic without connective words: 'x A + y B', 'x A - y B', 'x A / y B', 'x A * 2' for every ordered same-kind pair of the 33 units, the unit names written as configured, UPPER-CASE and Capitalised (unit names are not words of a language): identical observation in every configured language",
+            move |ch| {
+                use crate::model::units::UNITS;
+                let i = ch.choose(UNITS.len());
+                let j = ch.choose(UNITS.len());
+                if UNITS[i].kind != UNITS[j].kind {
+                    return None;
+                }
+                let case = ch.choose(3);
+                let re = |s: &str| match case {
+                    0 => s.to_string(),
+                    1 => s.to_uppercase(),
+                    _ => {
+                        let mut c = s.chars();
+                        c.next().map(|f| f.to_uppercase().collect::<String>() + c.as_str()).unwrap_or_default()
+                    }
+                };
+                let (a, b) = (re(UNITS[i].short), re(UNITS[j].short));
+                let text = match ch.choose(4) {
+                    0 => format!("500 {} + 1 {}", a, b),
+                    1 => format!("500 {} - 1 {}", a, b),
+                    2 => format!("500 {} / 2 {}", a, b),
+                    _ => format!("3 {} * 4", a),
+                };
+                Some(Case::WordFree { text })
+            },
+        ));
+        f.push(Family::new(
             "word-free-programs",
             Mode::Full,
             "every program of 1..=2 lines over the 26 number line kinds of C03 (bindings, re-bindings, uses, failing lines): identical observation in every configured language",
